@@ -294,6 +294,11 @@ def run(ctx):
             citems.append((classes.qualname(cls), i))
     ctx.pmap(_composed_worker, citems)
     ctx.pmap(_zone_worker, [(z, p, 4) for z in (ZONES if thorough else ZONES[:3]) for p in range(4)], fresh=True)
+    from mc import history
+    history.explore_orders(ctx, 'parse and re-serialisation of an accepted input',
+                           lambda cls: 'history:%s:depends_on_what_was_parsed_before' % cls,
+                           orders=('forward', 'reverse', 'byhash') if ctx.quick else
+                           ('forward', 'reverse', 'byhash', 'forward', 'reverse'))
     ctx.pmap(_targeted_worker, [('dates', 0, 1), ('txt', 0, 1), ('scsv', 0, 1), ('mysql', 0, 1)] +
              [('dnskey', p, 32) for p in range(32)])
     ctx.assumptions += ['only inputs the parser accepts are subject to the property; rejected inputs and '
@@ -303,12 +308,21 @@ def run(ctx):
                            '256 thorough), deletions, B5 insertions, short strings, token sequences, cross-class seeds, compositions of every object within one deviation of the seeds; '
                            'plus 54 date spellings x 5 classes, TXT partitions, SCSV placements (all permutations of '
                            '<=3 suites + SCSVs), all 2^16 DNSKEY flag words, MySQL words with <=2 flipped bits; '
-                           'every corpus seed again under 3 (thorough 4) non-UTC process time zones; states = distinct accepted inputs')
+                           'every corpus seed again under 3 (thorough 4) non-UTC process time zones; every seed observed in a pristine process of its own class and in 3 global parse orders over all classes; states = distinct accepted inputs')
 
 
 def replay(ctx, w):
     acc = core.Acc()
     cls = classes.class_by_name(w['cls'])
+    if w.get('kind') == 'order_history':
+        from mc import history
+        # the poisoning prefix is the whole pass: re-run that pass and the class alone
+        history.explore_orders(ctx, 'replay', lambda c: 'history:%s:depends_on_what_was_parsed_before' % c,
+                               orders=(w['order'],))
+        for v, n in list(ctx.violations.values()) + list(ctx.known_hits.values()):
+            if v['witness'].get('cls') == w['cls']:
+                return v
+        return None
     if w.get('zone'):
         import os
         import time
